@@ -31,6 +31,9 @@ func main() {
 			fmt.Println("INCONCLUSIVE:", err)
 			os.Exit(2)
 		}
+		if handled, code := checks.ReplayHostile(os.Args[3]); handled {
+			os.Exit(code)
+		}
 		os.Exit(c.Replay(os.Args[3]))
 	}
 	if tier != "quick" && tier != "thorough" {
